@@ -29,7 +29,8 @@ func init() {
 		Level: "exploration",
 		Rule: "part A: every registered transformation x every byte string of the tier's spaces (all strings of length <=2 (quick) / <=3 (thorough) over all 256 byte values; " +
 			"all strings of length <=6 / <=8 over the transformation's own escape alphabet, i.e. every truncation of every escape at every offset; " +
-			"sandwiches head+run+tail with runs of 0..1M bytes and every tail of <=3 / <=4 alphabet symbols; for htmlEntityDecode every &name / &name; with 1..3 / 1..4 ASCII letters); " +
+			"every alphabet string of length <=4 / <=5 with one position replaced by each of the 256 byte values; " +
+			"sandwiches head+run+tail (head <=1 symbol, run of 0..40, 63..65, 127..129, 255..257, 1023..1025, 4096, 65535..65537 and (thorough) 1M copies of a filler, every tail of <=3 / <=4 alphabet symbols, <=1 for the runs >= 65535); for htmlEntityDecode every &name / &name; with 1..3 / 1..4 ASCII letters); " +
 			"part B: every list of <=2 of the 34 names and every list of <=3 / <=4 names over a 6 / 8 name alphabet, as a multiMatch rule and as a plain rule, x every input of <=2 / <=3 tokens of a 13-token alphabet; " +
 			"a case is non-trivial when the transformation (or the list) produced a value different from its input; distinct_nontrivial counts the first 60000 of them per worker, the counter nontrivial_cases counts all",
 		Assumptions: []string{
